@@ -20,6 +20,7 @@ import Driver.C15
 import Driver.C17
 import Driver.C18
 import Driver.C19
+import Driver.C20
 import Driver.C36
 import Driver.C33
 import Driver.C32
@@ -42,6 +43,7 @@ def step (line : String) : String :=
   | "C17" :: ts => stepC17 ts
   | "C18" :: ts => stepC18 ts
   | "C19" :: ts => stepC19 ts
+  | "C20" :: ts => stepC20 ts
   | "C22" :: ts => stepC22 ts
   | "C23" :: ts => stepC23 ts
   | "C24" :: ts => stepC24 ts
